@@ -100,7 +100,7 @@ def ctx_d():
 
 
 def get(name):
-    if name == 'D':
+    if name in ('D', 'C'):
         return ctx_d()
     if name == 'A':
         return ctx_a(True)
